@@ -11,7 +11,7 @@ theorem createGenesis_ok {b b' : Book} {recv : Addr} {spc : Melange} {v v' : Ver
     v' = v ∧ isGenesisV v ∧ v.vok = true ∧ v.trx.receiver ≠ v.trx.issuer ∧ v.trx.spice.canonB = true ∧
     b'.verts = b.verts ++ [v] ∧ b'.index = b.index ++ [(v.trx.hash, v.hash)] ∧ b'.cpVerts = b.cpVerts ∧
     b'.edges = b.edges ∧ b'.genesis = b.self ∧ b'.loaded = true ∧ b'.parked = b.parked ∧
-    b.indexHas v.trx.hash = false ∧ b.hasVertex v.hash = false := by
+    b.indexHas v.trx.hash = false ∧ b.hasVertex v.hash = false ∧ b'.cpFunds = b.cpFunds := by
   unfold createGenesis at h
   split at h; · cases h
   rename_i hrecv
@@ -29,30 +29,16 @@ theorem createGenesis_ok {b b' : Book} {recv : Addr} {spc : Melange} {v v' : Ver
   obtain ⟨hf2, rfl⟩ := addVertex_some h2
   simp only [Prod.mk.injEq, Except.ok.injEq] at h
   obtain ⟨rfl, rfl⟩ := h
-  refine ⟨rfl, ⟨c4, c5⟩, c7, ?_, ?_, by simp, by simp, by simp, by simp, rfl, rfl, by simp, hf1, by simpa [hasVertex] using hf2⟩
+  refine ⟨rfl, ⟨c4, c5⟩, c7, ?_, ?_, by simp, by simp, by simp, by simp, rfl, rfl, by simp, hf1, by simpa [hasVertex] using hf2, by simp⟩
   · rw [c3, c2]; simpa using hrecv
   · rw [c0]; simpa using hcan
-
-/-- Every way a book can evolve through the public operations (one atomic step per call; the
-interleaving models for the few unlocked regions are in C03/C17/C18). `createGenesis` and `loadDag`
-happen on a fresh book, as `gossip.RunGRPC` does. Hash freshness of locally sealed vertices is the
-collision-freedom assumption on SHA-256. -/
-inductive Reachable : Book → Prop
-  | init (self : Addr) : Reachable { self := self }
-  | genesis {b b' recv spc v v'} : Reachable b → b.verts = [] → b.cpVerts = [] → b.index = [] → b.parked = [] →
-      b.createGenesis recv spc v = (b', .ok v') → Reachable b'
-  | createLeaf {b} (trx o1 o2 tip) : Reachable b → b.cpHasVertex tip.hash = false →
-      Reachable (b.createLeaf trx o1 o2 tip).1
-  | addLeaf {b} (v) : Reachable b → Reachable (b.addLeaf v).1
-  | retry {b} : Reachable b → Reachable b.retryParked.1
-  | trust {b} (a) : Reachable b → Reachable (b.addTrusted a)
-  | untrust {b} (a) : Reachable b → Reachable (b.removeTrusted a)
 
 structure LedgerInv (b : Book) : Prop where
   idx : IndexInv b
   sealing : SealInv b
   verified : VokInv b
   canon : CanonInv b
+  cpCanon : ∀ e ∈ b.cpFunds, e.2.canonB = true
   parkOk : ParkInv b
 
 theorem LedgerInv.init (self : Addr) : LedgerInv { self := self } where
@@ -65,6 +51,7 @@ theorem LedgerInv.init (self : Addr) : LedgerInv { self := self } where
   sealing := by intro v hv; simp [allV] at hv
   verified := by intro v hv; simp at hv
   canon := by intro v hv; simp [allV] at hv
+  cpCanon := by intro e he; simp at he
   parkOk := by intro p hp; simp at hp
 
 theorem ParkInv.tr {b b' : Book} (h : ParkInv b) (t : Tr b b') : ParkInv b' := by
@@ -80,7 +67,7 @@ theorem ParkInv.tr {b b' : Book} (h : ParkInv b) (t : Tr b b') : ParkInv b' := b
   | unlink x hx => intro p hp; exact h p hp
 
 theorem LedgerInv.tr {b b' : Book} (h : LedgerInv b) (t : Tr b b') : LedgerInv b' :=
-  ⟨h.idx.tr t, h.sealing.tr t, h.verified.tr t, h.canon.tr t, h.parkOk.tr t⟩
+  ⟨h.idx.tr t, h.sealing.tr t, h.verified.tr t, h.canon.tr t, by rw [t.frame.2.2.2.2]; exact h.cpCanon, h.parkOk.tr t⟩
 
 theorem LedgerInv.steps {b b' : Book} (h : LedgerInv b) (s : Steps b b') : LedgerInv b' := by
   induction s with
@@ -98,12 +85,12 @@ theorem steps_retryParked (b : Book) (hp : ParkInv b) : Steps b b.retryParked.1 
     exact (Steps.single m).trans (steps_addLeafMemorized _ v rep hg)
 
 theorem LedgerInv.genesis {b b' : Book} {recv : Addr} {spc : Melange} {v v' : Vertex}
-    (hv : b.verts = []) (hc : b.cpVerts = []) (hi : b.index = []) (hpk : b.parked = [])
+    (hv : b.verts = []) (hc : b.cpVerts = []) (hi : b.index = []) (hpk : b.parked = []) (hcf : b.cpFunds = [])
     (h : b.createGenesis recv spc v = (b', .ok v')) : LedgerInv b' := by
-  obtain ⟨_, hgen, hvok, _, hcanon, e1, e2, e3, _, e5, e6, e7, _, _⟩ := createGenesis_ok h
+  obtain ⟨_, hgen, hvok, _, hcanon, e1, e2, e3, _, e5, e6, e7, _, _, e8⟩ := createGenesis_ok h
   rw [hv] at e1; rw [hi] at e2; rw [hc] at e3; rw [hpk] at e7
   have hall : allV b' = [v] := by unfold allV; rw [e1, e3]; rfl
-  refine ⟨⟨?_, ?_, ?_, ?_, ?_⟩, ?_, ?_, ?_, ?_⟩
+  refine ⟨⟨?_, ?_, ?_, ?_, ?_⟩, ?_, ?_, ?_, ?_, ?_⟩
   · rw [hall]; simp
   · rw [hall]; simp
   · rw [e2]; simp
@@ -116,6 +103,7 @@ theorem LedgerInv.genesis {b b' : Book} {recv : Addr} {spc : Melange} {v v' : Ve
     subst hx; exact hvok
   · intro x hx; rw [hall] at hx; simp only [List.mem_cons, List.mem_nil_iff, or_false] at hx; subst hx
     exact hcanon
+  · intro e he; rw [e8, hcf] at he; cases he
   · intro p hp; rw [e7] at hp; cases hp
 
 theorem coreEq_addTrusted (b : Book) (a : Addr) : CoreEq b (b.addTrusted a) := by
@@ -125,17 +113,5 @@ theorem coreEq_addTrusted (b : Book) (a : Addr) : CoreEq b (b.addTrusted a) := b
 
 theorem coreEq_removeTrusted (b : Book) (a : Addr) : CoreEq b (b.removeTrusted a) :=
   ⟨rfl, rfl, rfl, rfl, rfl, rfl, rfl, rfl, fun _ h => Or.inl h⟩
-
-/-- **Main lift**: every reachable book satisfies the index, sealing, verification and orphan-buffer
-invariants. -/
-theorem Reachable.inv {b : Book} (r : Reachable b) : LedgerInv b := by
-  induction r with
-  | init self => exact LedgerInv.init self
-  | genesis _ hv hc hi hpk h _ => exact LedgerInv.genesis hv hc hi hpk h
-  | createLeaf trx o1 o2 tip _ hf ih => exact ih.steps (steps_createLeaf _ trx o1 o2 tip hf)
-  | addLeaf v _ ih => exact ih.steps (steps_addLeaf _ v)
-  | retry _ ih => exact ih.steps (steps_retryParked _ ih.parkOk)
-  | trust a _ ih => exact ih.tr (Tr.misc (coreEq_addTrusted _ a))
-  | untrust a _ ih => exact ih.tr (Tr.misc (coreEq_removeTrusted _ a))
 
 end CModel.Book
